@@ -595,6 +595,59 @@ def lazy_history(rng, length, sids=None):
     return g.hist
 
 
+def lazy_chain_history(rng):
+    """C09 with deep cascades: closures that queue closures that queue closures ..., 5 to 12 levels deep (a queue
+    worked off in a bounded number of passes, or by a bounded recursion, loses the tail), several chains queued side by
+    side so that the levels interleave; every level writes or removes a cell, creates an entity or requests a deletion,
+    and the last level's effect is looked up after the one maintain."""
+    g = Gen(rng)
+    for sid in rng.sample(range(NSIDS), rng.randint(1, 2)):
+        g.register(sid)
+    n = rng.randint(2, 4)
+    g.hist.append((wg.CI, [n]))
+    g.created(n)
+
+    def level_ops():
+        ops = []
+        for _ in range(rng.randint(1, 2)):
+            sid = rng.choice(g.regs)
+            k = rng.random()
+            if k < 0.5:
+                u, v = g.tok(sid)
+                ops.append((rng.choice([INS, LINS]), [sid, rng.randrange(n), u, v]))
+            elif k < 0.7:
+                ops.append((rng.choice([REM, LREM]), [sid, rng.randrange(n)]))
+            elif k < 0.85:
+                ops.append((wg.C, g.comps(2)))
+                g.created(1)
+            else:
+                ops.append((wg.EC, []))
+                g.created(1)
+        return ops
+
+    def chain(depth):
+        ops = level_ops()
+        if depth > 1:
+            ops.insert(rng.randint(0, len(ops)), (LEXEC, encode_ops(chain(depth - 1))))
+        return ops
+
+    for _ in range(rng.randint(1, 3)):
+        for _ in range(rng.randint(1, 4)):
+            g.hist.append((LEXEC, encode_ops(chain(rng.randint(5, 12)))))
+            if rng.random() < 0.3:
+                g.hist += level_ops()
+        g.hist.append((wg.M, []))
+        g.hist.append((wg.PROBE, []))
+        for sid in g.regs:
+            g.hist.append((MSK, [sid]))
+            for h in range(n):
+                g.hist.append((GET, [sid, h]))
+    g.hist.append((wg.M, []))
+    g.hist.append((wg.PROBE, []))
+    g.hist.append((DROPW, []))
+    return g.hist
+
+
 def lazy_flood_history(rng):
     """C09 with a long queue: several hundred actions pending at one maintain (more than any fixed-size buffer a queue
     might start with: 256, 512), among them early closures that queue further actions; actions before and after the
